@@ -136,6 +136,8 @@ def check(req):
             expect_member = bool(directory) and a.get("ok") and len(delivered) > 0
             if expect_member:
                 if member not in content:
+                    if a.get("never_opened"):
+                        return fail("asset_member_missing", "asset %r is in the asset table and its file is readable (%d bytes), but the package builder never tried to read it and %s is not in the archive" % (a["url"], len(delivered), member))
                     return fail("asset_member_missing", "asset %r was read (%d bytes) but %s is not in the archive" % (a["url"], len(delivered), member))
                 if content[member] != delivered:
                     return fail("asset_member_content_differs", "asset %r: archive holds %d bytes, the file delivered %d" % (a["url"], len(content[member]), len(delivered)))
